@@ -5,7 +5,7 @@ b = json.load(open('/root/.vp/BASELINE.json'))
 want = set(b['stable_pass'])
 env = dict(os.environ, GOFLAGS='-mod=mod', GOPROXY='off')
 pkgs = sys.argv[1:] or ['./...']
-p = subprocess.run(['go', 'test', '-json', '-vet=off', '-count=1', '-timeout', '25m'] + pkgs, cwd='/repo', env=env, capture_output=True, text=True)
+p = subprocess.run(['go', 'test', '-json', '-vet=off', '-count=1', '-timeout', '25m'] + pkgs, cwd=os.environ.get('BASELINE_REPO','/repo'), env=env, capture_output=True, text=True)
 res = {}
 for line in p.stdout.splitlines():
     try:
